@@ -12,7 +12,7 @@ MONITORS = ['C07']
 def run(ctx):
     machine_prop.run(ctx, FAMILIES, MONITORS)
     # dates that are inexact in binary floating point: the block must end at EXACTLY the date (implementation only)
-    machine_prop.run(ctx, [('untils', 60, 1500, {'float_times': True})], MONITORS, model=False)
+    machine_prop.run(ctx, [('untils', 200, 3000, {'float_times': True})], MONITORS + ['C01'], model=False)
 
 
 def search(ctx):
